@@ -14,6 +14,10 @@ for a in sys.argv[1:]:
         tier = a.split("=", 1)[1]
 claimed = {c["property_id"] for c in json.load(open(os.path.join(V, "MANIFEST.json")))["checks"]}
 ids = args or sorted(os.listdir(os.path.join(V, "seeded")))
+# evidence files are rewritten by every check run: keep the ones of the clean tree
+import shutil, tempfile
+_ev_backup = tempfile.mkdtemp(prefix="evidence_backup_", dir=os.path.join(V, ".cache"))
+shutil.copytree(os.path.join(V, "evidence"), os.path.join(_ev_backup, "evidence"))
 assert subprocess.run("git -C /repo status --porcelain --untracked-files=no", shell=True, capture_output=True, text=True).stdout.strip() == "", "/repo not clean"
 for i in ids:
     d = os.path.join(V, "seeded", i)
@@ -47,5 +51,8 @@ for i in ids:
         subprocess.run(["git", "-C", "/repo", "checkout", "--", "."], check=True)
     json.dump(meta, open(os.path.join(d, "meta.json"), "w"), indent=1)
 
+shutil.rmtree(os.path.join(V, "evidence"))
+shutil.copytree(os.path.join(_ev_backup, "evidence"), os.path.join(V, "evidence"))
+shutil.rmtree(_ev_backup)
 # leave lean/Generated in the state of the clean tree
 subprocess.run(["python3", "-c", "import sys; sys.path.insert(0, '%s/tools'); from vlib import translate, implside; hd = implside.ensure(['plain']); translate.run(hd['plain'])" % V], cwd=V)
